@@ -1294,7 +1294,7 @@ func TestCheck(t *testing.T) {
 
 	// 1. stepped gate scenarios against the gate model (bubble)
 	var gs struct{ runs, evals, unmodelled atomic.Int64 }
-	vh.Parallel(r.Pick(6000, 600000), workers, func(i int) {
+	vh.Parallel(r.Pick(6000, 150000), workers, func(i int) {
 		if stop.Load() || !on("gatestep") {
 			return
 		}
@@ -1315,7 +1315,7 @@ func TestCheck(t *testing.T) {
 
 	// 2. free-running gate workloads, bubble and real time
 	var gf struct{ rt, bubble, concurrent, timeouts, overlap, polls, rebs atomic.Int64 }
-	vh.Parallel(r.Pick(10000, 1000000), workers, func(i int) {
+	vh.Parallel(r.Pick(10000, 150000), workers, func(i int) {
 		if stop.Load() || !on("gatefree") {
 			return
 		}
@@ -1377,7 +1377,7 @@ func TestCheck(t *testing.T) {
 	var lf struct{ rt, bubble, timeouts, nontrivial, stepRuns, stepEvals, tryFailedFree atomic.Int64 }
 	var lt lockTotals
 	if mutexOK {
-		vh.Parallel(r.Pick(4000, 400000), workers, func(i int) {
+		vh.Parallel(r.Pick(4000, 100000), workers, func(i int) {
 			if stop.Load() || !on("lockstep") {
 				return
 			}
@@ -1393,7 +1393,7 @@ func TestCheck(t *testing.T) {
 			bail()
 		})
 		lap("lock_stepped")
-		vh.Parallel(r.Pick(8000, 1000000), workers, func(i int) {
+		vh.Parallel(r.Pick(8000, 100000), workers, func(i int) {
 			if stop.Load() || !on("lockfree") {
 				return
 			}
